@@ -82,6 +82,34 @@ def main(argv):
     r = lvalidate(levents[:k] + levents[k + 1:])
     say("(b') one return event removed -> rejected", r is not None and r != -1, "rejected at %s (removed %d)" % (r, k + 1))
 
+    # ---- (a''), (b''): the Viseca statement reader's trace binds
+    ndv, nv, stv = tlc_gen("MCImportViseca.tla", "ImportViseca_wf_quick.cfg", "selftest-viseca", workers=4, timeout=900)
+    vtr = os.path.join(WORK, "selftest-vtrace.ndjson")
+    pr = subprocess.run([VH, "viseca-trace", "--in", ndv, "--out", vtr, "--stride", "7"], stdout=subprocess.PIPE, text=True, check=True)
+    vinfo = json.loads(pr.stdout.strip().splitlines()[-1])
+    vevents = open(vtr).read().splitlines()
+
+    def vvalidate(lines):
+        q = os.path.join(WORK, "selftest-vtrace-bad.ndjson")
+        open(q, "w").write("\n".join(lines) + "\n")
+        rc, out, secs = run_tlc("MCImportVisecaTrace.tla", "ImportVisecaTrace.cfg", workers=1, timeout=600, env_extra={"TRACE": q},
+                                java_extra="-Xss1g -Xmx4g -Dtlc2.tool.queue.IStateQueue=StateDeque")
+        m = re.search(r'TRACE-REJECTED at event",\s*(\d+)', out)
+        return int(m.group(1)) if m else (None if "No error has been found" in out else -1)
+    say("(a'') recorded reader events of %d imports are accepted by ImportVisecaTrace.tla" % vinfo["runs"], vinfo["hook_events"] > 0 and vvalidate(vevents) is None,
+        "%d events, %d from the hook" % (len(vevents), vinfo["hook_events"]))
+    k = next(i for i, l in enumerate(vevents) if '"ev":"read"' in l and i > 30)
+    e = json.loads(vevents[k]); e["count"] += 1
+    r = vvalidate(vevents[:k] + [json.dumps(e)] + vevents[k + 1:])
+    say("(a'') one logged line counter off by one -> rejected at that event", r == k + 1, "rejected at %s, corrupted %d" % (r, k + 1))
+    k = next(i for i, l in enumerate(vevents) if '"ev":"peek"' in l and '"cached":true' in l and i > 30)
+    e = json.loads(vevents[k]); e["cached"] = False
+    r = vvalidate(vevents[:k] + [json.dumps(e)] + vevents[k + 1:])
+    say("(a'') a look-ahead logged as a fresh fetch -> rejected at that event", r == k + 1, "rejected at %s, corrupted %d" % (r, k + 1))
+    k = next(i for i, l in enumerate(vevents) if '"ev":"entry"' in l and i > 30)
+    r = vvalidate(vevents[:k] + vevents[k + 1:])
+    say("(b'') one entry event removed -> rejected", r is not None and r != -1, "rejected at %s (removed %d)" % (r, k + 1))
+
     # ---- (c): a flipped expectation is reported by the replay harness
     nd, n, st = tlc_gen("MCLedger.tla", "Ledger_Round.cfg", "selftest-round", workers=4, timeout=900)
     recs = read_records(nd)
@@ -143,6 +171,8 @@ def main(argv):
         ("Loader.tla", "Loader", ["Open", "Deliver", "Descend", "Enter", "Return", "Finish", "SplitOne", "SplitTwo"],
          "MCLoader.tla", ["Loader_ArbLive.cfg", "Loader_Glob.cfg", "Loader_Split.cfg"]),
         ("ImportRules.tla", "ImportRules", ["ApplyRule"], "MCImportRules.tla", ["ImportRules_rules.cfg"]),
+        ("ImportViseca.tla", "ImportViseca", ["ReadEntry", "DecideBlock", "ReadCategory", "ReadExchange", "DecideFee", "ReadFee", "SkipAir", "ReadAir"],
+         "MCImportViseca.tla", ["ImportViseca_wf_quick.cfg", "ImportViseca_arb_quick.cfg"]),
         ("Golden.tla", "Golden", ["SetEnv", "ExternalWrite", "ExternalDelete", "GNew", "GAssert"], "MCGolden.tla", ["Golden_small.cfg"]),
     ]:
         counts = action_counts(spec_file, module_name, actions, mc_module, cfgs)
